@@ -473,6 +473,20 @@ type CycSite struct {
 	Host string
 }
 
+// exported method (and field) names need not start with an ASCII letter: one-, two- and three-byte upper-case initials
+type uniM struct{ Ếch string }
+
+func (uniM) Name() string            { return "name" }
+func (uniM) Über() string            { return "ueber" }
+func (uniM) Ấn() string              { return "an" }
+func (*uniM) Ḃump() string           { return "bump" }
+func (uniM) Ｗide(s string) string    { return "wide:" + s }
+func (uniM) Ωmega() string           { return "omega" }
+
+type uniMap map[string]int
+
+func (uniMap) Ẩn() string { return "map-an" }
+
 type mixHolder struct {
 	V mixM
 	P *mixM
@@ -496,6 +510,8 @@ func init() {
 			data, wantF = methDeep{methV{emb}, "h"}, "method-F"
 		case "mixed", "mixedRev":
 			data = mixHolder{V: mixM{"v"}, P: &mixM{"p"}, M: map[string]interface{}{"v": mixM{"m"}, "p": &mixM{"mp"}}}
+		case "unicode":
+			data = map[string]interface{}{"v": uniM{"frog"}, "p": &uniM{"pfrog"}, "d": uniMap{"k": 1}}
 		case "cycSelf":
 			data = CycNode{&CycNode{nil, "in"}, "out"}
 		case "cycPair":
@@ -505,7 +521,11 @@ func init() {
 		}
 		type q struct{ src, want string }
 		qs := []q{{`{{ .G }}`, "7"}, {`{{ .EmbF.F }}`, "field-F"}, {`{{ .EmbF.G + 1 }}`, "8"}}
-		if which == "cycSelf" {
+		if which == "unicode" {
+			qs = []q{{`{{ .v.Name() }}|{{ .v.Über() }}|{{ .v.Ωmega() }}`, "name|ueber|omega"}, {`{{ .v.Ấn() }}`, "an"}, {`{{ .p.Ấn() }}|{{ .p.Ḃump() }}`, "an|bump"},
+				{`{{ .v.Ｗide("x") }}`, "wide:x"}, {`{{ .v.Ếch }}|{{ .p.Ếch }}|{{ .v["Ếch"] }}`, "frog|pfrog|frog"}, {`{{ .d.Ẩn() }}|{{ .d.k }}`, "map-an|1"},
+				{`{{ isset(.v.Ấn) }}|{{ isset(.d.Ẩn) }}|{{ isset(.v.Nope) }}`, "true|true|false"}, {`{{ x := .v.Ấn }}{{ x() }}`, "an"}, {`{{ .v.Ḃump() }}`, "ERR"}}
+		} else if which == "cycSelf" {
 			qs = []q{{`{{ .Label }}`, "out"}, {`{{ .CycNode.Label }}`, "in"}, {`{{ isset(.Label) }}|{{ isset(.Missing) }}`, "true|false"},
 				{`{{ .["Label"] }}`, "out"}, {`{{ .CycNode.CycNode.Label }}`, "ERR"}, {`{{ .Missing }}`, "ERR"}}
 		} else if which == "cycPair" {
@@ -521,7 +541,7 @@ func init() {
 					qs[i], qs[j] = qs[j], qs[i]
 				}
 			}
-		} else if which == "cycSelf" || which == "cycPair" {
+		} else if which == "cycSelf" || which == "cycPair" || which == "unicode" {
 		} else if wantF != "" {
 			qs = append(qs, q{`{{ .F() }}`, wantF}, q{`{{ x := .F }}{{ x() }}`, wantF})
 		} else {
@@ -566,6 +586,6 @@ func init() {
 }
 
 func genMethodCase(r *h.Rand) h.Case {
-	w := r.Pick([]string{"valueMethod", "valueMethodPtr", "ptrMethod", "deep", "none", "mixed", "mixedRev", "cycSelf", "cycPair"})
+	w := r.Pick([]string{"valueMethod", "valueMethodPtr", "ptrMethod", "deep", "none", "mixed", "mixedRev", "cycSelf", "cycPair", "unicode"})
 	return h.Case{Stream: "methods", NoModel: true, NonTrivial: true, Tags: []string{w}, Cmd: sx.L(sx.A("method-access"), sx.A(w))}
 }
